@@ -200,6 +200,10 @@ func (s *pxState) originHandler(w http.ResponseWriter, r *http.Request) {
 	if rg := r.Header.Get("Range"); rg != "" && cp.status == 200 {
 		switch cp.mode {
 		case "r416":
+			// like most servers, the refusal itself carries no caching directives: whether the full
+			// response fetched by a retry may be stored must be decided from THAT response's headers
+			h.Del("Cache-Control")
+			h.Del("Expires")
 			h.Set("Content-Range", fmt.Sprintf("bytes */%d", cp.size))
 			w.WriteHeader(416)
 			return
@@ -399,7 +403,15 @@ func init() {
 					cfg := config.NewDefault()
 					b := func(x string) bool { return x == "1" }
 					dflt, _ := strconv.Atoi(f[6])
-					limit, _ := strconv.ParseInt(f[9], 10, 64)
+					// "limit" or "limit/shards": a small limit with few shards puts the cache under pressure
+					// (full-cache stores, store-triggered evictions that cannot free the caller's own shard)
+					lf := strings.SplitN(f[9], "/", 2)
+					limit, _ := strconv.ParseInt(lf[0], 10, 64)
+					shards := 8
+					if len(lf) == 2 {
+						shards, _ = strconv.Atoi(lf[1])
+						o.Count("pressure")
+					}
 					cfg.Proxy.UpstreamDefaultHttps.Overwrite(false)
 					cfg.Proxy.CachePolicy.IgnoreCacheControl.Overwrite(b(f[4]))
 					cfg.Proxy.CachePolicy.ForceDefaultMaxAge.Overwrite(b(f[5]))
@@ -408,7 +420,7 @@ func init() {
 					cfg.Proxy.RetryOnRange416.Overwrite(b(f[8]))
 					cfg.Cache.MaxCacheSize.Overwrite(bytesize.ByteSize(limit))
 					cfg.Cache.CleanupInterval.Overwrite(duration.Duration(time.Hour))
-					cfg.Cache.LockShards.Overwrite(8)
+					cfg.Cache.LockShards.Overwrite(shards)
 					s.dir = fmt.Sprintf("%s/c%d", base, s.seq%4)
 					cfg.Cache.File.Dir.Overwrite(s.dir)
 					if s.backend == "file" {
@@ -504,6 +516,11 @@ func init() {
 							if t, err := http.ParseTime(cur); err == nil {
 								hdr = append(hdr, [2]string{"If-Range", t.Add(time.Duration(off) * time.Second).UTC().Format(http.TimeFormat)})
 							}
+						} else if v == "empty" || v == "blank" { // an If-Range field with no value / only white space
+							hdr = append(hdr, [2]string{"If-Range", map[string]string{"empty": "", "blank": "  "}[v]})
+						} else if strings.HasPrefix(v, "dt:") { // an HTTP date n seconds from the trace base, whatever the resource has
+							off, _ := strconv.Atoi(v[3:])
+							hdr = append(hdr, [2]string{"If-Range", s.base.Add(time.Duration(off) * time.Second).UTC().Format(http.TimeFormat)})
 						} else {
 							hdr = append(hdr, [2]string{"If-Range", unhx(v)})
 						}
@@ -665,8 +682,18 @@ func genProxyTrace(c runCfg, o *Out, emit func(...string)) {
 			transport = "tunnel"
 		}
 		dflt := []int{5, 30, 120}[r.Intn(3)]
-		emit("px", "reset", backend, transport, b01(25), b01(25), itoa(dflt), b01(30), b01(50), "1000000")
+		limit := "1000000"
+		if r.Chance(12) {
+			// cache under pressure: the model cannot know which stores succeed and what gets evicted; in these traces
+			// only the cache-independent predicates are judged (a complete answer, never the proxy's own error, no crash)
+			limit = []string{"1500/1", "800/1", "2500/2", "300/1"}[r.Intn(4)]
+		}
+		emit("px", "reset", backend, transport, b01(25), b01(25), itoa(dflt), b01(30), b01(50), limit)
+		lastEtag := map[int]string{}
 		nres := 1 + r.Intn(2)
+		if limit != "1000000" {
+			nres = 3
+		}
 		setOrigin := func(id int) {
 			ver++
 			fields := []string{"ver=" + itoa(ver), "size=" + itoa([]int{0, 1, 10, 100, 777, 2000}[r.Intn(6)])}
@@ -692,6 +719,13 @@ func genProxyTrace(c runCfg, o *Out, emit func(...string)) {
 			case 1:
 				fields = append(fields, "expires=at:"+itoa([]int{-3600, -10, 20, 3600}[r.Intn(4)]))
 			}
+			if prev, had := lastEtag[id]; had && r.Chance(25) {
+				// the content changed but the origin re-uses the entity tag (weak revision tags, sloppy origins) and
+				// ignores conditionals: the 200 it sends must still replace what is stored
+				fields = append(fields, "etag="+prev, "cond=0")
+				emit("px", "origin", itoa(id), strings.Join(append(fields, "mode=ignore"), ";"))
+				return
+			}
 			switch r.Intn(5) {
 			case 0:
 				fields = append(fields, "etag="+hx(fmt.Sprintf("\"e%d\"", ver)))
@@ -712,6 +746,11 @@ func genProxyTrace(c runCfg, o *Out, emit func(...string)) {
 			if r.Chance(35) {
 				fields = append(fields, "hdrset="+itoa(1+r.Intn(6)))
 			}
+			for _, fl := range fields {
+				if strings.HasPrefix(fl, "etag=") {
+					lastEtag[id] = fl[5:]
+				}
+			}
 			emit("px", "origin", itoa(id), strings.Join(fields, ";"))
 		}
 		for id := 0; id < nres; id++ {
@@ -730,7 +769,7 @@ func genProxyTrace(c runCfg, o *Out, emit func(...string)) {
 				if method == "GET" && r.Chance(30) {
 					rng = hx([]string{"bytes=0-9", "bytes=5-", "bytes=-7", "bytes=0-0", "bytes=90-120", "bytes=5000-6000", "bytes=9-3", "bytes=0-4,9-12", "bytes=", "bytes=5", "bytes=18446744073709551616-18446744073709551620", "items=0-5"}[r.Intn(12)])
 					if r.Chance(30) {
-						ifr = []string{hx(fmt.Sprintf("\"e%d\"", ver)), hx("\"other\""), "lm:0", "lm:-100", "lm:100", hx("garbage")}[r.Intn(6)]
+						ifr = []string{hx(fmt.Sprintf("\"e%d\"", ver)), hx("\"other\""), "lm:0", "lm:-100", "lm:100", hx("garbage"), "dt:0", "dt:-100000", "dt:5000"}[r.Intn(9)]
 					}
 				}
 				if r.Chance(20) {
@@ -753,7 +792,16 @@ func genProxyTrace(c runCfg, o *Out, emit func(...string)) {
 					emit("px", "shift", "130000")
 					emit("px", "req", itoa(id), "GET", "-", "-", "-", "0", "-", "-")
 				}
-			case x < 71:
+			case x < 70:
+				// a Range request with every form of If-Range against whatever is (or is not) stored: entity tag that
+				// matches / differs, date relative to the resource's Last-Modified, date when the resource has none
+				emit("px", "req", itoa(id), "GET", "-", "-", "-", "0", "-", "-")
+				for k := 0; k < 1+r.Intn(2); k++ {
+					ifr := []string{hx(fmt.Sprintf("\"e%d\"", ver)), hx("\"other\""), "lm:0", "lm:-100", "lm:100", hx("garbage"), "dt:0", "dt:-100000", "dt:5000", "-", "empty", "blank"}[r.Intn(12)]
+					rg := hx([]string{"bytes=0-9", "bytes=5-", "bytes=-7", "bytes=0-0", "bytes=2-5"}[r.Intn(5)])
+					emit("px", "req", itoa(id), "GET", rg, ifr, "-", "0", "-", "-")
+				}
+			case x < 74:
 				// a revalidation long after expiry, then the same request again: the renewed lifetime counts from the revalidation
 				emit("px", "shift", itoa(1000*[]int{61, 130, 130, 400}[r.Intn(4)]))
 				emit("px", "req", itoa(id), "GET", "-", "-", "-", "0", "-", "-")
@@ -762,7 +810,7 @@ func genProxyTrace(c runCfg, o *Out, emit func(...string)) {
 					emit("px", "shift", itoa(1000*[]int{4, 6, 29, 31, 119, 121}[r.Intn(6)]))
 					emit("px", "req", itoa(id), "GET", "-", "-", "-", "0", "-", "-")
 				}
-			case x < 84:
+			case x < 86:
 				emit("px", "shift", itoa(1000*[]int{1, 1, 3, 4, 6, 29, 31, 59, 61, 130}[r.Intn(10)]))
 			case x < 94:
 				setOrigin(id)
